@@ -288,7 +288,7 @@ def run_graphs(unit, acc):
             rot = code % 3
             combos = [c for j, c in enumerate(combos) if j % 3 == rot]
         for idx, (sizes, n, seed_arg) in enumerate(combos):
-            lab = "binint" if idx % 2 == 0 else "generic"
+            lab = ("binint", "generic", "cancel", "tiny")[idx % 4]
             fails = explore_config(p, code, lab, list(sizes), n, seed_arg, acc, tier)
             acc.extra["graph_configs_p%d" % p] += 1
             seen = set()
